@@ -57,6 +57,37 @@ def gen_lines(rng, n, rich=False):
     return out
 
 
+def spec_events(lines):
+    """the SSE field rules (W3C EventSource, 'interpreting an event stream') on logical lines:
+    returns (events [(id, name, data)], last id, retry) -- independent of ioflo, for the search"""
+    evs, leid, retry, name, parts = [], None, None, "", []
+    for raw in lines:
+        line = raw.decode("utf-8")
+        if line == "":
+            data = "\n".join(parts)
+            if data:
+                evs.append((leid, name, data))
+            name, parts = "", []
+            continue
+        if line.startswith(":"):
+            continue
+        field, sep, value = line.partition(":")
+        if value.startswith(" "):
+            value = value[1:]
+        if field == "event":
+            name = value
+        elif field == "data":
+            parts.append(value)
+        elif field == "id":
+            leid = value
+        elif field == "retry":
+            try:
+                retry = int(value)
+            except ValueError:
+                pass
+    return evs, leid, retry, None
+
+
 def run(ctx):
     ctx.rule = ("event streams = logical lines (fields, comments, blanks, unicode values) x a CR/LF/CRLF "
                 "choice per line, fed to the real EventSource under (a) every split into <= 3 pieces "
@@ -122,7 +153,7 @@ def run(ctx):
             for pieces in sp:
                 add(pieces, "all-eol-mixes", nk=len(set(ks)))
     # (c) random long
-    for _ in range(ctx.n(350, 6000)):
+    for _ in range(ctx.n(800, 6000)):
         lines = gen_lines(rng, rng.randint(3, 14), rich=True)
         ks = fix_eols(lines, [rng.choice(list(EOLS)) for _ in lines])
         data = render(lines, ks)
@@ -133,7 +164,7 @@ def run(ctx):
         for pieces in sp:
             add(pieces, "random", nk=len(set(ks)))
     # (d) malformed soup and over-long lines
-    for _ in range(ctx.n(200, 3000)):
+    for _ in range(ctx.n(400, 3000)):
         s = "".join(rng.choice("\r\r\n\n: :dataidretryevn019é") for _ in range(rng.randint(0, 30)))
         add(H.random_split(rng, s.encode("utf-8"), 4), "soup")
     for _ in range(ctx.n(100, 800)):
@@ -141,7 +172,7 @@ def run(ctx):
         ks = [rng.choice(list(EOLS)) for _ in lines]
         add(H.random_split(rng, render(lines, ks), 4), "line-limit", maxline=rng.randint(0, 9))
 
-    bad = ctx.coq_cases(H.HEADER + dpool.defs() + pool.defs(), "beq", cases, name="c33")
+    bad = ctx.coq_cases(H.HEADER + dpool.defs() + pool.defs(), "beq", cases, name="c33", shard=700)
     for i in bad[:5]:
         pieces, view, maxline = metas[i]
         ctx.tie_broken("correspondence", "C33 model vs EventSource.parseEvents",
@@ -172,6 +203,13 @@ def run(ctx):
                               "expected": "same events, leid, retry for every split",
                               "contradicts": "C33.Props.sse_split_independent"})
             if b"".join(sp[0]) == render(lines, ks):
+                spec = spec_events(lines)
+                spec = ([tuple(e) for e in spec[0]],) + spec[1:]
+                if (([tuple(e) for e in whole[0]],) + whole[1:]) != spec:
+                    consider({"key": "sse-field-rules", "pieces": [data.decode("latin-1")],
+                              "lines": [l.decode("latin-1") for l in lines], "endings": ks,
+                              "observed": whole, "expected_by_field_rules": spec,
+                              "contradicts": "C33.Props.sse_parse_is_fold_of_lines (sse_line = the field rules)"})
                 lf = H.sse_events_only([render(lines, ["lf"] * len(lines))])
                 if whole != lf:
                     consider({"key": "sse-eol-dependent", "pieces": [data.decode("latin-1")],
